@@ -44,9 +44,13 @@ Inv_Stable == Unesc(s).ok => Unesc(Esc(Unesc(s).out, "full")).out = Unesc(s).out
 \* a custom resolver changes nothing for strings without its names, and its replacement is never scanned again
 Inv_Custom == (Unesc(s).ok => UnescCustom(s).ok) /\ (UnescCustom(s).ok /\ ~Unesc(s).ok => \E i \in 1..Len(s) : s[i] = 97)
 
+\* a catch-all resolver cannot change or rescue numeric references
+Inv_Lenient == (UnescLenient(s).ok /\ Unesc(s).ok /\ ~(\E i \in 1..(Len(s) - 1) : s[i] = 38 /\ s[i + 1] # 35)) => UnescLenient(s).out = Unesc(s).out
+
 Inv_Emit ==
     Emit => PrintT(<<"REPLAY", ToJson([s |-> s, full |-> Esc(s, "full"), partial |-> Esc(s, "partial"),
                                        minimal |-> Esc(s, "minimal"),
                                        ok |-> IF Unesc(s).ok THEN 1 ELSE 0, out |-> Unesc(s).out, e |-> Unesc(s).e,
-                                       okx |-> IF UnescCustom(s).ok THEN 1 ELSE 0, outx |-> UnescCustom(s).out])>>)
+                                       okx |-> IF UnescCustom(s).ok THEN 1 ELSE 0, outx |-> UnescCustom(s).out,
+                                       okl |-> IF UnescLenient(s).ok THEN 1 ELSE 0, outl |-> UnescLenient(s).out])>>)
 =============================================================================
